@@ -15,6 +15,18 @@ CHECKS = {
          "Generated-input search over wrap kinds, key kinds, passwords, KDF parameters and recipient pairs with a round-trip + fixed-length oracle; the rare RSA-KEM ciphertexts with leading zero bytes are constructed (scripted RNG draw r = c^d) rather than waited for.",
          "Trusts the committed RSA key pool and the bounded KDF parameter ranges; aws-lc/libsodium internal randomness is not scripted.",
          "property-based testing (proptest): round-trip + fixed-length oracle, scripted RNG draws", "DESIGN.md §5 C05"),
+ "C02": ("pv-harness", "fault_enumeration",
+         "Fault enumeration: the complete mutation catalogue (every bit of small tokens, every truncation, boundary extensions and shifts, footer/assertion edits, key substitutions, header relabels) applied to proptest-sampled tokens of all six back ends and both purposes; every mutant must be rejected and the control accepted. Exhaustive per generated token for the listed mutation classes, sampled over tokens.",
+         "Trusts FromStr as the entry path of mutants and the harness's byte-level reassembly (model base64).",
+         "fault-injection enumeration over generated tokens (proptest-sampled), must-reject oracle with positive control", "DESIGN.md §5 C02"),
+ "C06": ("pv-harness", "fault_enumeration",
+         "Fault enumeration over library-produced PIE/PBKW/PKE blobs: every bit, every length change, header relabels, other keys/passwords/recipients; unwrap must fail for every mutant and the control must return the original key.",
+         "PBKW mutants whose mutated cost field exceeds the stated budget are skipped (counted); v1 k1.seal bits are sampled in the quick tier because each costs an RSA-4096 private operation. HMAC-equivalent passwords (zero-padding) are not 'other' passwords.",
+         "fault-injection enumeration over generated wrapped keys, must-reject oracle with positive control", "DESIGN.md §5 C06"),
+ "C12": ("pv-harness", "fault_enumeration",
+         "The C02 mutant stream replayed on pairs of tokens (decodable / undecodable payload) with an instrumented payload decoder and validator: for every failing token neither runs, the error is never PayloadError and does not differ between the pair members; controls pin the decode-then-validate order.",
+         "Error-kind equality is demanded only when the nonce and tag/signature windows of both pair members are byte-identical (a signature window that swallowed message bytes may legitimately parse differently). The accessor clause is decided by the generated compile probes of C18.",
+         "fault-injection enumeration with invocation-recording Payload/Validate, metamorphic pair oracle", "DESIGN.md §5 C12"),
 }
 
 NOT_APPLICABLE = []  # filled while properties are still being built
